@@ -2,18 +2,20 @@
 (***************************************************************************)
 (* Property C08: where a request goes and how it names its resource.       *)
 (*   url    abstract URL [sch, host, port, path, q] (+ hostKind)           *)
-(*   proxy  "-" or a proxy record [sch, host, port]                        *)
+(*   proxy  a proxy record [sch, host, port, user]; sch = "-" means none    *)
 (***************************************************************************)
 EXTENDS Rfc3986, TLC
 
+NoProxy == [sch |-> "-"]
+
 \* connection target: the proxy if one was selected, else the URL's own host and effective port
 Peer(url, proxy) ==
-  IF proxy = "-" THEN [host |-> url.host, port |-> EffPort(url)]
+  IF proxy.sch = "-" THEN [host |-> url.host, port |-> EffPort(url)]
   ELSE [host |-> proxy.host, port |-> EffPort(proxy)]
 \* request-target form
-Form(url, proxy) == IF proxy # "-" /\ url.sch = "http" THEN "absolute" ELSE "origin"
+Form(url, proxy) == IF proxy.sch # "-" /\ url.sch = "http" THEN "absolute" ELSE "origin"
 \* is the request (after a CONNECT exchange) tunnelled?
-Tunnelled(url, proxy) == proxy # "-" /\ url.sch = "https"
+Tunnelled(url, proxy) == proxy.sch # "-" /\ url.sch = "https"
 \* Host field of a directly sent or tunnelled request (IPv6 literals are logged bracketed)
 HostField(url) == IF url.port = 0 THEN url.host ELSE url.host \o ":" \o ToString(url.port)
 =============================================================================
